@@ -471,16 +471,70 @@ func (a Float) M__complex__() (Object, error) {
 }
 
 func (a Float) M__round__(digitsObj Object) (Object, error) {
-	digits := 0
-	if digitsObj != None {
+	x := float64(a)
+	if digitsObj == None {
+		// round to the nearest int, a tie goes to the even one.
+		// M__int__ raises the errors for nan and the infinities
+		return Float(math.RoundToEven(x)).M__int__()
+	}
+	// Limits from float_round in CPython: with more than ndigitsMax
+	// digits x rounds to itself and with less than ndigitsMin to 0
+	const (
+		ndigitsMax = 323
+		ndigitsMin = -308
+	)
+	var digits Int
+	if d, ok := digitsObj.(*BigInt); ok {
+		digits = Int((*big.Int)(d).Sign()) * (ndigitsMax + 1)
+	} else {
 		var err error
-		digits, err = MakeGoInt(digitsObj)
+		digits, err = Index(digitsObj)
 		if err != nil {
 			return nil, err
 		}
 	}
-	scale := Float(math.Pow(10, float64(digits)))
-	return scale * Float(math.Floor(float64(a)/float64(scale))), nil
+	switch {
+	case math.IsNaN(x) || math.IsInf(x, 0) || digits > ndigitsMax:
+		return a, nil
+	case digits < ndigitsMin:
+		return Float(0 * x), nil
+	}
+	// Work with the exact value of x as a fraction so that it is
+	// rounded once to a decimal and once back to a float, like
+	// the dtoa and strtod that CPython uses
+	negative := digits < 0
+	if negative {
+		digits = -digits
+	}
+	scale := new(big.Rat).SetInt(new(big.Int).Exp(big.NewInt(10), big.NewInt(int64(digits)), nil))
+	r := new(big.Rat).SetFloat64(x)
+	if negative {
+		r.Quo(r, scale)
+	} else {
+		r.Mul(r, scale)
+	}
+	// Round r to the nearest integer q, a tie goes to the even one
+	m := new(big.Int)
+	q, _ := new(big.Int).DivMod(r.Num(), r.Denom(), m)
+	cmp := m.Lsh(m, 1).Cmp(r.Denom())
+	if cmp > 0 || (cmp == 0 && q.Bit(0) != 0) {
+		q.Add(q, big.NewInt(1))
+	}
+	r.SetInt(q)
+	if negative {
+		r.Mul(r, scale)
+	} else {
+		r.Quo(r, scale)
+	}
+	res, _ := r.Float64()
+	switch {
+	case math.IsInf(res, 0):
+		return nil, ExceptionNewf(OverflowError, "rounded value too large to represent")
+	case res == 0:
+		// a zero keeps the sign of x
+		res = math.Copysign(0, x)
+	}
+	return Float(res), nil
 }
 
 // Rich comparison
